@@ -194,7 +194,8 @@ colored_case!(colored_fg_only, true, false);
 colored_case!(colored_bg_only, false, true);
 colored_case!(colored_none, false, false);
 
-/// The in-memory writer: same bytes as the sum of the parts.
+/// The in-memory writer receives exactly the bytes the scripted `dyn Write` receives
+/// (whose framing the harnesses above interpret): same generic function, other writer type.
 #[kani::proof]
 #[kani::unwind(10)]
 fn colored_vec() {
@@ -204,54 +205,33 @@ fn colored_vec() {
     let mut v: Vec<u8> = Vec::new();
     let r = v.write_colored(fg, bg, &data);
     assert!(matches!(r, Ok(2)), "Vec accepts everything");
-    let mut strip = StripModel::new();
-    let mut tok: SgrTok<4> = SgrTok::new();
-    let mut sty = Sty::default();
-    let mut seqs = 0usize;
-    let mut data_seen = 0usize;
-    let mut bad = false;
-    let codes = fg.is_some() as usize + bg.is_some() as usize;
-    // expected layout: `codes` sequences, 2 data bytes, then one reset if codes > 0
-    blocks!(24, i, {
-        if i < v.len() {
-            let b = v[i];
-            if seqs == codes && data_seen < 2 && tok.idle() {
-                if b != data[data_seen] {
-                    bad = true;
-                }
-                data_seen += 1;
-            } else {
-                match tok.feed(b) {
-                    Tok::More => {}
-                    Tok::Bad => bad = true,
-                    Tok::Complete => {
-                        seqs += 1;
-                        match sgr::apply(sty, &tok.vals, &tok.sub, tok.n, RENDER) {
-                            Some(t) => sty = t,
-                            None => bad = true,
-                        }
-                        if seqs == codes {
-                            let want = Sty {
-                                fg: fg.map(|c| Col::Ansi(ansi_index(c))),
-                                bg: bg.map(|c| Col::Ansi(ansi_index(c))),
-                                ul: None,
-                                eff: 0,
-                            };
-                            if sty != want {
-                                bad = true;
-                            }
-                        }
+    let mut script = Script::new(usize::MAX, NEVER, std::io::ErrorKind::Other);
+    let r2 = {
+        let w: &mut dyn std::io::Write = &mut script;
+        w.write_colored(fg, bg, &data)
+    };
+    assert!(matches!(r2, Ok(2)));
+    let mut off = 0usize;
+    let mut same = true;
+    let mut k = 0;
+    while k < 5 {
+        if k < script.calls {
+            let f = &script.frag[k];
+            let mut j = 0;
+            while j < 8 {
+                if j < f.len {
+                    if off + j >= v.len() || v[off + j] != f.buf[j] {
+                        same = false;
                     }
                 }
+                j += 1;
             }
+            off += f.len;
         }
-    });
-    assert!(v.len() <= 24);
-    assert!(!bad && tok.idle(), "codes, data unchanged, reset");
-    assert!(data_seen == 2);
-    assert!(seqs == codes + if codes > 0 { 1 } else { 0 });
-    assert!(sty == Sty::default(), "default state restored");
+        k += 1;
+    }
+    assert!(same && off == v.len(), "Vec<u8> receives codes, data and reset exactly as a dyn Write does");
     core::mem::forget(v);
-    kani::cover!(codes == 2);
-    kani::cover!(codes == 0);
+    kani::cover!(fg.is_some() && bg.is_some());
+    kani::cover!(fg.is_none() && bg.is_none());
 }
